@@ -1,6 +1,8 @@
 (** * Shared correspondence vocabulary for the OpenAPI server (C03, C13, C14, C15). *)
 From ET Require Export Corr.Common.
 From ET Require Export Model.Basic Model.Oapi.
+From ET Require Import Model.Csv.
+From ET Require Export Corr.CsvCase.
 
 Record cimat := CIM { cim_size : Z; cim_entries : list (Z * Z * float) }.
 Arguments CIM cim_size%Z cim_entries.
@@ -11,9 +13,10 @@ Arguments CIV civ_size%Z civ_entries.
 Definition v2 (i : Z) (x : float) : Z * float := (i, x).
 Arguments v2 i%Z x%float.
 
-Inductive cmref := RInline (m : cimat) | RStored (id : N) | ROther.
+Inductive cmref := RInline (m : cimat) | RStored (id : N) | ROther
+| RFile (c : @Csv.csvin F64).      (* objectstorage file:// reference on a server with file references enabled: the CSV it names *)
 Arguments RStored id%N.
-Inductive cvref := VIn (v : civec) | VOth.
+Inductive cvref := VIn (v : civec) | VOth | VFile (c : @Csv.csvin F64).
 
 Record creq := CQ { cq_local : cmref; cq_initial : option cvref; cq_pre : option cvref;
                     cq_alpha : option float; cq_eps : option float;
@@ -22,10 +25,11 @@ Record creq := CQ { cq_local : cmref; cq_initial : option cvref; cq_pre : option
 Definition to_imat (m : cimat) : inline_mat F64 := @Build_inline_mat F64 (cim_size m) (cim_entries m).
 Definition to_ivec (v : civec) : inline_vec F64 := @Build_inline_vec F64 (civ_size v) (civ_entries v).
 Definition to_mref (r : cmref) : mref F64 :=
-  match r with RInline m => MInline (to_imat m) | RStored id => @MStored F64 (N.to_nat id) | ROther => @MOther F64 end.
-Definition to_vref (r : cvref) : vref F64 := match r with VIn v => VInline (to_ivec v) | VOth => @VOther F64 end.
-Definition to_req (q : creq) : request F64 :=
-  @Build_request F64 (to_mref (cq_local q)) (option_map to_vref (cq_initial q)) (option_map to_vref (cq_pre q))
+  match r with RInline m => MInline (to_imat m) | RStored id => @MStored F64 (N.to_nat id) | ROther => @MObject F64 None
+  | RFile c => @MObject F64 (Csv.load_csv_mat c) end.
+Definition to_vref (r : cvref) : vref F64 := match r with VIn v => VInline (to_ivec v) | VOth => @VObject F64 None | VFile c => @VObject F64 (Csv.load_csv_vec c) end.
+Definition to_req (q : creq) : Oapi.request F64 :=
+  @Oapi.Build_request F64 (to_mref (cq_local q)) (option_map to_vref (cq_initial q)) (option_map to_vref (cq_pre q))
     (cq_alpha q) (cq_eps q) (cq_ft q) (cq_nl q) (cq_mx q) (cq_mn q) (cq_fq q).
 
 (** Go: e := 1e-6 / float64(cDim) *)
